@@ -181,7 +181,7 @@ class Build:
             base = ['gcc', '-O1', '-g', '-w', '-c', '-I' + RT, '-I' + self.tmp, '-I' + self.hdir] + self.SAN + defines
             sh(base + ['-DLL2C_TRANSLATED', self.harness, '-o', ht])
             sh(base + [self.harness, '-o', hr])
-            sh(['gcc'] + self.SAN + [self.tobj, ht, self.mobj, '-o', tn, '-lm'])
+            sh(['gcc'] + self.SAN + [self.tobj, ht, self.mobj, '-o', tn, '-lm', '-lstdc++'])
             sh(['g++'] + self.SAN + self.robjs + [hr, self.mobj, '-o', rn + '.tmp', '-lpthread', '-lm'])
             os.rename(rn + '.tmp', rn)
         return tn, rn
